@@ -168,6 +168,72 @@ class AnyStrShape(Shape):
         return "anystr"
 
 
+class RopeShape(Shape):
+    """a string with a fixed atom template: literals are fixed, windows have array-backed bounds"""
+
+    def __init__(self, template, is_str):
+        self.template = list(template)       # ('lit', bytes) | ('win', base, xf)
+        self.is_str = is_str
+        self.sorts = tuple(I for t in self.template if t[0] == "win" for _ in (0, 1))
+
+    @staticmethod
+    def of(v):
+        from .values import Lit
+        templ = []
+        for a in v.atoms:
+            if isinstance(a, Lit):
+                templ.append(("lit", a.b))
+            elif isinstance(a, Win):
+                templ.append(("win", a.base, a.xf))
+            else:
+                raise Unsupported("rope shape with atom %r" % (a,))
+        return RopeShape(templ, v.is_str)
+
+    def unpack(self, v):
+        from .values import Lit
+        if not isinstance(v, SStr) or v.is_str != self.is_str or len(v.atoms) != len(self.template):
+            raise Unsupported("rope shape mismatch")
+        out = []
+        for a, t in zip(v.atoms, self.template):
+            if t[0] == "lit":
+                if not isinstance(a, Lit) or a.b != t[1]:
+                    raise Unsupported("rope shape mismatch (literal)")
+            else:
+                if not isinstance(a, Win) or not a.base.eq(t[1]) or a.xf != t[2]:
+                    raise Unsupported("rope shape mismatch (window)")
+                out += [a.lo, a.hi]
+        return out
+
+    def pack(self, ts):
+        from .values import Lit
+        atoms, k = [], 0
+        for t in self.template:
+            if t[0] == "lit":
+                atoms.append(Lit(t[1]))
+            else:
+                atoms.append(Win(t[1], ts[k], ts[k + 1], t[2], self.is_str))
+                k += 2
+        r = SStr.__new__(SStr)
+        r.atoms = tuple(atoms)       # keep the template structure (no literal merging)
+        r.is_str = self.is_str
+        return r
+
+    def __eq__(self, o):
+        if type(o) is not RopeShape or self.is_str != o.is_str or len(self.template) != len(o.template):
+            return False
+        for a, b in zip(self.template, o.template):
+            if a[0] != b[0]:
+                return False
+            if a[0] == "lit" and a[1] != b[1]:
+                return False
+            if a[0] == "win" and not (a[1].eq(b[1]) and a[2] == b[2]):
+                return False
+        return True
+
+    def __repr__(self):
+        return "rope%r" % ([t[0] if t[0] == "win" else t[1] for t in self.template],)
+
+
 class TupleShape(Shape):
     def __init__(self, shapes):
         self.shapes = list(shapes)
@@ -312,7 +378,7 @@ def shape_of(v, st=None):
             return WinShape(w.base, v.is_str, w.xf)
         if v.concrete() is not None:
             return ConstShape(v)
-        raise Unsupported("havoc of a multi-atom rope %r" % (v,))
+        return RopeShape.of(v)
     if isinstance(v, STuple):
         return TupleShape([shape_of(x, st) for x in v.items])
     if isinstance(v, SymRef):
